@@ -435,3 +435,66 @@ func verifC11PerPair() {
 	verifrt.Assert(terr != nil, "refused-publish-creates-no-topic")
 	verifrt.Reach("refused-after-an-allowed-subscribe", subFirst && errPubAbc != nil)
 }
+
+// A grant is for the names it matches, not for names that merely start with them: "t#ephemeral" /
+// "c#ephemeral" are topics / channels of their own ("#ephemeral" is part of the name a client
+// sends), so a grant for exactly topic pub (channel c) does not cover them. A grant written for
+// the ephemeral name does.
+func VerifC11_EphemeralNamesAreNamesOfTheirOwn() { verifrt.Atomic(verifC11Ephemeral) }
+
+func verifC11Ephemeral() {
+	o := verifOpts()
+	o.MemQueueSize = 2
+	st := auth.State{TTL: 60, Authorizations: []auth.Authorization{
+		{Topic: "^ab$", Channels: []string{"^c$"}, Permissions: []string{"subscribe"}},
+		{Topic: "^pub$", Channels: []string{".*"}, Permissions: []string{"publish"}},
+		{Topic: "^eph#ephemeral$", Channels: []string{"^c#ephemeral$"}, Permissions: []string{"publish", "subscribe"}},
+	}}
+	verifAuthd(o, []verifAuthReply{{state: st}})
+	n := verifShellNSQD(o)
+	verifrt.StubNative("(*github.com/nsqio/nsq/nsqd.NSQD).Notify", verifNotifyNop)
+	cl, _ := verifClient(n, 1, nil)
+	s := st
+	s.Expires = time.Unix(1<<32, 0)
+	cl.AuthState = &s
+	p := &protocolV2{nsqd: n}
+	var err error
+	topic, channel := "", ""
+	granted := false
+	which := verifrt.Choice("command", 6)
+	switch which {
+	case 0:
+		topic, channel = "ab", "c#ephemeral"
+	case 1:
+		topic, channel = "ab#ephemeral", "c"
+	case 2:
+		topic = "pub#ephemeral"
+	case 3:
+		topic, channel, granted = "eph#ephemeral", "c#ephemeral", true
+	case 4:
+		topic, granted = "eph#ephemeral", false // the third grant's channel pattern does not accept the empty channel of a publish
+	case 5:
+		topic, channel = "eph", "c"
+	}
+	if channel != "" {
+		_, err = p.Exec(cl, [][]byte{[]byte("SUB"), []byte(topic), []byte(channel)})
+	} else {
+		kw := []string{"PUB", "DPUB"}[verifrt.Choice("kw", 2)]
+		params := [][]byte{[]byte(kw), []byte(topic)}
+		if kw == "DPUB" {
+			params = append(params, []byte("5"))
+		}
+		cl.Reader.Reset(&verifStream{data: append(verifBE32(1), 'x'), err: errEOFVerif})
+		_, err = p.Exec(cl, params)
+	}
+	_, terr := n.GetExistingTopic(topic)
+	if granted {
+		verifrt.Assert(err == nil, "grant-for-the-ephemeral-name-is-honoured")
+		verifrt.Reach("ephemeral-subscribe-granted", which == 3)
+		return
+	}
+	code, fatal, _ := verifErr(err)
+	verifrt.Assert(err != nil && fatal && code == "E_UNAUTHORIZED", "grant-for-a-plain-name-does-not-cover-the-ephemeral-name")
+	verifrt.Assert(terr != nil, "refused-command-creates-no-ephemeral-topic")
+	verifrt.Reach("ephemeral-name-refused", which == 0)
+}
